@@ -5,98 +5,53 @@ import PV.C20.Lemmas
 /-
   C20 — property theorems: "str.format templates split into the same fields as Python's".
 
-  `Model.fromStr`, `Model.parseFieldName`   the Rust code as it is (format/src/format.rs)
+  `Model.fromStr`, `Model.parseFieldName`   the Rust code as it is (format/src/format.rs; `parse_spec` is
+                                            the one-pass scanner of /repo commit eebce66)
   `Spec.formatterParser` + `Spec.canon`,
   `Spec.fieldNameSplit`                     CPython 3.11 (`_string.formatter_parser`,
                                             `_string.formatter_field_name_split`)
   `accepted`                                forgets which error was raised (only acceptance counts)
 
-  The unchanged Rust code does NOT satisfy the property on all templates (`template_fails`,
-  `deviates_*`; `fieldname_fails`, `fieldname_*_differs`): these are listed findings.  What is
-  proved is the property on the explicit decidable domains `inDomain` / `fieldNameInDomain`
-  (PV/C20/Domain.lean), for templates and field names of every length.
+  Template splitting is proved at full strength (`template_eq`, every template of every length).
+  The field-name splitter still differs from CPython in what it takes for an integer
+  (`fieldname_fails`, `fieldname_*_differs`: listed findings); what is proved there is the property
+  on the explicit decidable domain `fieldNameInDomain` (PV/C20/Domain.lean).
 -/
 namespace PV.C20
 
 /-! ### template splitting -/
 
-/-- the property as stated: same part sequence, or both reject — for every template -/
-def template_full : Prop :=
-  ∀ t : List Nat, accepted (Model.fromStr t) = (accepted (Spec.formatterParser t)).map Spec.canon
-
-/-- On every template of the domain (no hazard H1–H5 of Domain.lean) the Rust splitter returns
-    exactly CPython's literal pieces and fields (name, conversion, spec), and rejects exactly the
-    templates CPython rejects. -/
-theorem template_eq_partial (t : List Nat) (h : inDomain t = true) :
+/-- For **every** template: the Rust splitter returns exactly CPython's literal pieces (doubled
+    braces unescaped, adjacent pieces joined) and fields (name, conversion character, spec text with
+    nested braces verbatim), and rejects exactly the templates CPython rejects. -/
+theorem template_eq (t : List Nat) :
     accepted (Model.fromStr t) = (accepted (Spec.formatterParser t)).map Spec.canon :=
-  parseM_eq_canonS t.length t (Nat.le_refl _) h
+  parseM_eq_canonS t.length t (Nat.le_refl _)
 
--- `ab{{c}}{0.x[1]!r:>{w}}{:[^9]}` is in the domain and is split into 3 parts by both
-example : inDomain [97, 98, 123, 123, 99, 125, 125, 123, 48, 46, 120, 91, 49, 93, 33, 114, 58, 62, 123, 119,
-    125, 125, 123, 58, 91, 94, 57, 93, 125] = true := by decide
+-- `ab{{c}}{0.x[1]!r:>{w}}{:[^9]}` is split into 3 parts
 example : accepted (Model.fromStr [97, 98, 123, 123, 99, 125, 125, 123, 48, 46, 120, 91, 49, 93, 33, 114, 58,
     62, 123, 119, 125, 125, 123, 58, 91, 94, 57, 93, 125]) =
     some [.literal [97, 98, 123, 99, 125],
           .field { name := [48, 46, 120, 91, 49, 93], conv := some 114, spec := [62, 123, 119, 125] },
           .field { name := [], conv := none, spec := [91, 94, 57, 93] }] := by decide
--- rejected templates are in the domain too: `{a!rx}` (bad conversion), `a}` (single brace)
-example : inDomain [123, 97, 33, 114, 120, 125] = true ∧
-    accepted (Model.fromStr [123, 97, 33, 114, 120, 125]) = none := by decide
-example : inDomain [97, 125] = true ∧ accepted (Model.fromStr [97, 125]) = none := by decide
+-- rejected: `{a!rx}` (bad conversion), `a}` (single brace), `{a[}` (bracket never closed)
+example : accepted (Model.fromStr [123, 97, 33, 114, 120, 125]) = none ∧
+    accepted (Model.fromStr [97, 125]) = none ∧ accepted (Model.fromStr [123, 97, 91, 125]) = none := by decide
 
-/-- H1 `{a[}` : Rust accepts (field name `a[`), CPython: "expected '}' before end of string" -/
-theorem deviates_bracket_open :
-    accepted (Model.fromStr [123, 97, 91, 125]) = some [.field { name := [97, 91], conv := none, spec := [] }] ∧
-    accepted (Spec.formatterParser [123, 97, 91, 125]) = none := by decide
-
-/-- H1 `{a[}]}` : CPython's field name is `a[}]`, Rust rejects -/
-theorem deviates_bracket_brace :
-    accepted (Model.fromStr [123, 97, 91, 125, 93, 125]) = none ∧
-    (accepted (Spec.formatterParser [123, 97, 91, 125, 93, 125])).map Spec.canon =
-      some [.field { name := [97, 91, 125, 93], conv := none, spec := [] }] := by decide
-
-/-- H1 `{a[!]}` : CPython's field name is `a[!]`, Rust splits at the `!` -/
-theorem deviates_bracket_bang :
+/-- The seven templates on which the code *before* commit eebce66 deviated (`{a[}`, `{a[}]}`, `{a[!]}`,
+    `{a{b}c}`, `{!}}`, `{:{{}}}`, `{:[<5}`), as regression facts about the present model. -/
+theorem template_regressions :
+    accepted (Model.fromStr [123, 97, 91, 125]) = none ∧
+    accepted (Model.fromStr [123, 97, 91, 125, 93, 125]) =
+      some [.field { name := [97, 91, 125, 93], conv := none, spec := [] }] ∧
     accepted (Model.fromStr [123, 97, 91, 33, 93, 125]) =
-      some [.field { name := [97, 91], conv := some 93, spec := [] }] ∧
-    (accepted (Spec.formatterParser [123, 97, 91, 33, 93, 125])).map Spec.canon =
-      some [.field { name := [97, 91, 33, 93], conv := none, spec := [] }] := by decide
-
-/-- H2 `{a{b}c}` : CPython "unexpected '{' in field name", Rust accepts the name `a{b}c` -/
-theorem deviates_brace_in_name :
-    accepted (Model.fromStr [123, 97, 123, 98, 125, 99, 125]) =
-      some [.field { name := [97, 123, 98, 125, 99], conv := none, spec := [] }] ∧
-    accepted (Spec.formatterParser [123, 97, 123, 98, 125, 99, 125]) = none := by decide
-
-/-- H3 `{!}}` : CPython takes `}` as the conversion character, Rust rejects -/
-theorem deviates_conversion_char :
-    accepted (Model.fromStr [123, 33, 125, 125]) = none ∧
-    (accepted (Spec.formatterParser [123, 33, 125, 125])).map Spec.canon =
-      some [.field { name := [], conv := some 125, spec := [] }] := by decide
-
-/-- H4 `{:{{}}}` : CPython keeps nested braces of any depth in the spec text, Rust rejects depth 2 -/
-theorem deviates_spec_depth :
-    accepted (Model.fromStr [123, 58, 123, 123, 125, 125, 125]) = none ∧
-    (accepted (Spec.formatterParser [123, 58, 123, 123, 125, 125, 125])).map Spec.canon =
-      some [.field { name := [], conv := none, spec := [123, 123, 125, 125] }] := by decide
-
-/-- H5 `{:[<5}` (fill character `[`) : CPython's spec is `[<5`, Rust reports a missing `]` -/
-theorem deviates_spec_bracket :
-    accepted (Model.fromStr [123, 58, 91, 60, 53, 125]) = none ∧
-    (accepted (Spec.formatterParser [123, 58, 91, 60, 53, 125])).map Spec.canon =
+      some [.field { name := [97, 91, 33, 93], conv := none, spec := [] }] ∧
+    accepted (Model.fromStr [123, 97, 123, 98, 125, 99, 125]) = none ∧
+    accepted (Model.fromStr [123, 33, 125, 125]) = some [.field { name := [], conv := some 125, spec := [] }] ∧
+    accepted (Model.fromStr [123, 58, 123, 123, 125, 125, 125]) =
+      some [.field { name := [], conv := none, spec := [123, 123, 125, 125] }] ∧
+    accepted (Model.fromStr [123, 58, 91, 60, 53, 125]) =
       some [.field { name := [], conv := none, spec := [91, 60, 53] }] := by decide
-
-/-- the unchanged code violates the full property -/
-theorem template_fails : ¬ template_full := by
-  intro h
-  have h1 := h [123, 97, 91, 125]
-  rw [deviates_bracket_open.1, deviates_bracket_open.2] at h1
-  simp at h1
-
--- the seven witnesses are exactly outside the domain
-example : ([[123, 97, 91, 125], [123, 97, 91, 125, 93, 125], [123, 97, 91, 33, 93, 125],
-    [123, 97, 123, 98, 125, 99, 125], [123, 33, 125, 125], [123, 58, 123, 123, 125, 125, 125],
-    [123, 58, 91, 60, 53, 125]].map inDomain) = [false, false, false, false, false, false, false] := by decide
 
 /-! ### doubled braces -/
 
